@@ -1008,6 +1008,70 @@ def watch_compound_extension_case(pr):
     return None
 
 
+def watch_many_failures_case(pr):
+    """watch mode: more failing targets than CPUs, next to an unrelated target - every failure is attempted, the unrelated
+    target is built, rebuilt on change, and a repaired target builds"""
+    n = min((os.cpu_count() or 4) + 2, 40)
+    ts = {}
+    for i in range(n):
+        pr.write("f%d/in.txt" % i, "bad")
+        ts["f%d" % i] = {"input": [{"paths": ["f%d" % i]}], "build": 'echo "s f%d" >> "$ZLOG"\nif [ "$(cat f%d/in.txt)" = bad ]; then echo "x f%d" >> "$ZLOG"; exit 1; fi\necho "e f%d" >> "$ZLOG"' % (i, i, i, i)}
+    pr.write("src/in.txt", "v1")
+    ts["t"] = _copy_target()
+    pr.write("zinoma.yml", yml(ts))
+    p = _start_watch(pr, *(["f%d" % i for i in range(n)] + ["t"]))
+    if not pr.wait_for(lambda: sum(1 for l in pr.log() if l.startswith("x f")) >= n and pr.count("e t") >= 1, 25):
+        failed = sorted(l for l in pr.log() if l.startswith("x f"))
+        return {"property": "C07", "expected": "watch mode: all %d failing targets are attempted (and reported) and the unrelated target t is built" % n, "observed": "%d failures attempted, t built %d time(s)" % (len(failed), pr.count("e t")), "output": pr.output_of(p)[-400:]}
+    time.sleep(0.5)
+    if p.poll() is not None:
+        return {"property": "C07", "expected": "in watch mode failures are reported and zinoma keeps watching", "observed": "zinoma exited with %s" % p.returncode, "output": pr.output_of(p)[-400:]}
+    pr.edit("src/in.txt", "v2")
+    if not pr.wait_for(lambda: (pr.read("out.txt") or "").strip() == "v2", WAIT):
+        return {"property": ["C07", "C06"], "expected": "after %d failed builds the unrelated target t is still rebuilt when its input changes" % n, "observed": "out.txt = %r" % (pr.read("out.txt") or "").strip(), "output": pr.output_of(p)[-400:]}
+    pr.edit("f1/in.txt", "good now")
+    if not pr.wait_for(lambda: pr.count("e f1") >= 1, WAIT):
+        return {"property": ["C07", "C06"], "expected": "a failed target whose input is repaired builds", "observed": "log tail %s" % pr.log()[-6:], "output": pr.output_of(p)[-400:]}
+    return None
+
+
+def watch_mixed_aggregate_invalidated_case(late):
+    """watch mode, e2e -> aggregate stack -> [slow (build), server (service)], both behind gen: one edit puts both out of date;
+    e2e re-runs only after both are fresh again, whichever of the two comes back last"""
+    def fn(pr):
+        pr.write("src.txt", "1")
+        gen = {"input": [{"paths": ["src.txt"]}], "output": [{"paths": ["gen.txt"]}], "build": logging_build("gen", body="cat src.txt > gen.txt")}
+        slow = {"dependencies": ["gen"], "input": ["gen.output"], "build": logging_build("slow", sleep=2.0 if late == "build" else 0.2)}
+        prep = {"dependencies": ["gen"], "input": ["gen.output"], "build": logging_build("prep", sleep=2.0 if late == "service" else 0.0)}
+        server = {"dependencies": ["prep"], "input": ["gen.output"], "service": SVC}
+        e2e = {"dependencies": ["stack"], "build": 'echo "s e2e" >> "$ZLOG"\nif kill -0 "$(cat svc.pid)" 2>/dev/null; then echo "up e2e" >> "$ZLOG"; else echo "down e2e" >> "$ZLOG"; fi\nsleep 0.3\necho "e e2e" >> "$ZLOG"'}
+        pr.write("zinoma.yml", yml({"gen": gen, "slow": slow, "prep": prep, "server": server, "stack": {"dependencies": ["slow", "server"]}, "e2e": e2e}))
+        p = _start_watch(pr, "e2e")
+        if not _wait_builds(pr, "e2e", 1):
+            return None
+        time.sleep(0.5)
+        pr.edit("src.txt", "2-longer")
+        if not pr.wait_for(lambda: pr.count("e slow") >= 2 and pr.count("e prep") >= 2 and len(_pids(pr, "svc")) >= 2, WAIT):
+            return None
+        pr.wait_for(lambda: pr.count("e e2e") >= 2, 6)
+        time.sleep(0.8)
+        log = pr.log()
+        out = [l for l in pr.output_of(p).split("\n") if l.rstrip().endswith(("e2e - Building", "server - Starting service"))]
+        # zinoma's own output orders the service starts against e2e's builds (the scripts' log lines of two processes race)
+        svc2 = [i for i, l in enumerate(out) if "Starting service" in l][1:2]
+        e2e_after_edit = [i for i, l in enumerate(out) if "e2e - Building" in l][1:]
+        slow2 = [i for i, l in enumerate(log) if l == "e slow"][1]
+        starts_after_edit = [i for i, l in enumerate(log) if l == "s e2e"][1:]
+        if not svc2:
+            return None
+        if not e2e_after_edit or not starts_after_edit or max(e2e_after_edit) < svc2[0] or max(starts_after_edit) < slow2:
+            return {"property": ["C01", "C20"], "expected": "after the edit e2e runs again once slow has been rebuilt and the service restarted (it reaches both only through the aggregate)", "observed": "log %s; zinoma printed %s" % (log, out), "output": pr.output_of(p)[-400:]}
+        if min(e2e_after_edit) < svc2[0] or min(starts_after_edit) < slow2:
+            return {"property": ["C01", "C20"], "expected": "e2e does not start while slow or the service behind the aggregate is still out of date", "observed": "log %s; zinoma printed %s" % (log, out), "output": pr.output_of(p)[-400:]}
+        return None
+    return fn
+
+
 def cases(seed, tier="quick"):
     C = lambda n, fn, what: Case("live", n, fn, what)
     return [
@@ -1060,4 +1124,7 @@ def cases(seed, tier="quick"):
         C("service-and-dependent-requested-rev", service_and_dependent_requested_case(["db", "migrate"]), "the same, other order"),
         C("watch-sibling-xoutput", watch_sibling_xoutput_case, "out-of-band edit of a sibling project's output"),
         C("wide-aggregate-equiv", wide_aggregate_equiv_case, "wide build-only aggregate exits"),
+        C("watch-many-failures", watch_many_failures_case, "more failed builds than CPUs in one watch session"),
+        C("watch-mixed-aggregate-invalidated-build-late", watch_mixed_aggregate_invalidated_case("build"), "a build and a service behind an aggregate both out of date, the build comes back last"),
+        C("watch-mixed-aggregate-invalidated-service-late", watch_mixed_aggregate_invalidated_case("service"), "the same, the service comes back last"),
     ]
